@@ -300,7 +300,14 @@ pub fn deliveries(e: &[Ev]) -> Vec<Delivery> {
         out.push(Delivery {
             family: "union",
             label:  format!("union-infer_many{g1:?}|{g2:?}"),
-            ev:     out.last().expect("just pushed").ev.clone(),
+            // (the equality stated from the other side: about the variable
+            // registered later, naming the one registered first)
+            ev:     {
+                let mut ev = out.last().expect("just pushed").ev.clone();
+                ev.judgements.pop();
+                ev.judgements.push((3, Ev::Equal { other: 2 }));
+                ev
+            },
             sched:  Sched::natural(0),
             target: 2,
             mode:   evidence::Delivery::EqualitiesThroughInferMany,
